@@ -65,7 +65,7 @@ fn gen(seed: u64, idx: u64, _tier: Tier) -> Plan {
     plan.server = Some(s);
     let sockets = 1 + rng.below(8) as u32;
     let mut ctr = seed ^ 0xc11;
-    let mut t = 1000u64;
+    let mut t = 6000u64;
     let rounds = 2 + rng.below(5);
     for _ in 0..rounds {
         // clock fault between (or, with zero spacing, during) batches
